@@ -32,7 +32,7 @@ ASSUMPTIONS = [
 ]
 CONFIG = {
     "quick": {"examples": 32, "shards": 16, "shrink_s": 90, "time_budget_s": 280},
-    "thorough": {"examples": 256, "shards": 16, "shrink_s": 240, "time_budget_s": 3300},
+    "thorough": {"examples": 256, "shards": 16, "shrink_s": 240, "time_budget_s": 1500},
 }
 
 
